@@ -153,7 +153,9 @@ def _parseInventoryLine(line: str) -> Tuple[str, str, int, str, str]:
     Parse a single line from a Sphinx inventory.
     @raise ValueError: If the line does not conform to the syntax.
     """
-    parts = line.split(' ')
+    # Columns are separated by runs of whitespace, like in
+    # sphinx.util.inventory.InventoryFile.load_v2()'s regular expression.
+    parts = line.split()
 
     # The format is a bit of a mess: spaces are used as separators, but
     # there are also columns that can contain spaces.
